@@ -15,7 +15,8 @@
 (***************************************************************************)
 EXTENDS Integers, Sequences, FiniteSets, Bitwise, TLC
 
-CONSTANTS Queries,     \* the bounded input space (set of query records, see MC_ShardCoord)
+CONSTANTS Classes,     \* the bounded input space, split into query classes (see MC_ShardCoord) ...
+          Members(_),  \* ... and the set of concrete queries of a class
           Log(_, _)    \* observation variable policy (append / keep last)
 
 META == 2147483647     \* stands for core.MetachainShardId (0xFFFFFFFF does not fit a TLC integer)
@@ -126,8 +127,8 @@ MkAddr(tpl, len, suf) ==
     ELSE SubSeq(suf, Len(suf) - len + 1, Len(suf))
 
 -----------------------------------------------------------------------------
-VARIABLES q,      \* the query
-          res,    \* its answer (NoRes before Eval)
+VARIABLES q,      \* the query class (before Eval) / the concrete query (after Eval)
+          res,    \* the answer (NoRes before Eval)
           hist    \* observation only
 
 vars  == <<q, res, hist>>
@@ -145,13 +146,14 @@ Answer(x) ==
          LET ids == [i \in 1..(x.n + 1) |-> IF i = x.n + 1 THEN META ELSE i - 1]
          IN  [ids |-> ids, tab |-> [i \in 1..(x.n + 1) |-> [j \in 1..(x.n + 1) |-> CommId(ids[i], ids[j])]]]
 
-Init == q \in Queries /\ res = NoRes /\ hist = <<>>
+Init == q \in Classes /\ res = NoRes /\ hist = <<>>
 
 Eval ==
     /\ res = NoRes
-    /\ res' = Answer(q)
-    /\ q' = q
-    /\ hist' = Log(hist, [a |-> q.k, in |-> q, out |-> res'])
+    /\ \E x \in Members(q) :
+          /\ q' = x
+          /\ res' = Answer(x)
+          /\ hist' = Log(hist, [a |-> x.k, in |-> x, out |-> res'])
 
 Next == Eval
 Spec == Init /\ [][Next]_vars
@@ -164,12 +166,18 @@ Inv_C11_ValidShard ==
 
 \* the fall-back mask is what makes the assignment total: it is always below the shard count
 Inv_C11_MaskLowBelowN ==
-    (Answered /\ q.k = "compute") => (MaskLow(q.n) < q.n /\ MaskHigh(q.n) >= q.n - 1 /\ MaskHigh(q.n) < 2 * q.n)
+    (Answered /\ q.k = "compute") => (MaskLow(q.n) < q.n /\ MaskHigh(q.n) >= q.n - 1 /\ MaskHigh(q.n) \div 2 < q.n)
 
 Inv_C11_SameShard ==
     (Answered /\ q.k = "same") =>
         /\ SameShardOK(res.same, res.sa, res.sb)
         /\ ValidShard(q.n, QAddr(q.a), res.sa) /\ ValidShard(q.n, QAddr(q.b), res.sb)
+
+\* determinism: every repetition of a query (other coordinator instances, other self shard ids, repeated
+\* calls) gives the same answer.  Trivially true of the specification (an operator is a function); the
+\* field `reps` exists only in records observed from the real coordinator (Trace_ShardCoord).
+Inv_C11_Deterministic ==
+    (Answered /\ q.k = "compute" /\ "reps" \in DOMAIN res) => \A i \in 1..Len(res.reps) : res.reps[i] = res.shard
 
 Inv_C11_CommSymmetric == (Answered /\ q.k = "comm") => CommSymmetric(res.tab)
 Inv_C11_CommInjective == (Answered /\ q.k = "comm") => CommInjective(res.tab)
